@@ -72,6 +72,11 @@ def ackermannize(exprs, schemas=("pos", "inv", "unit")):
         for (vl, cl) in logs:
             if real(cl):
                 cons.append(z3.Implies(vl[0] == 1, cl == 0))
+    if "recip" in schemas:
+        # a * b = 1 (a, b > 0)  ->  log a + log b = 0
+        for (v1, c1), (v2, c2) in itertools.combinations(logs, 2):
+            if real(c1):
+                cons.append(z3.Implies(z3.And(v1[0] > 0, v2[0] > 0, v1[0] * v2[0] == 1), c1 + c2 == 0))
     if "mono" in schemas:
         for (u1, c1), (u2, c2) in itertools.permutations(exps, 2):
             if real(c1):
@@ -81,6 +86,78 @@ def ackermannize(exprs, schemas=("pos", "inv", "unit")):
             if real(c1):
                 cons.append(z3.Implies(z3.And(u1[0] > 0, u1[0] <= u2[0]), c1 <= c2))
     return new, cons, apps
+
+
+def expand_logs(exprs, log_name="log"):
+    """log(a*b) -> log a + log b, log(a/b) -> log a - log b, log(a^k) -> k log a, log(numeral) -> its value.
+    Returns (new_exprs, positivity side conditions that must hold for the rewriting to be valid)."""
+    import math
+    from fractions import Fraction
+    cache = {}
+    side = []
+    logf = [None]
+
+    def num(x):
+        return float(Fraction(x.numerator_as_long(), x.denominator_as_long()))
+
+    def pos(c, guard):
+        side.append(c > 0 if guard is None else z3.Implies(guard, c > 0))
+
+    def lg(t, guard=None):
+        t = z3.simplify(t)
+        if z3.is_rational_value(t):
+            v = num(t)
+            if v > 0:
+                fr = Fraction(math.log(v))
+                return z3.RealVal(f"{fr.numerator}/{fr.denominator}")
+            return logf[0](t)
+        if z3.is_app(t):
+            k = t.decl().kind()
+            ch = t.children()
+            if k == z3.Z3_OP_ITE:
+                g1 = ch[0] if guard is None else z3.And(guard, ch[0])
+                g2 = z3.Not(ch[0]) if guard is None else z3.And(guard, z3.Not(ch[0]))
+                return z3.If(ch[0], lg(ch[1], g1), lg(ch[2], g2))
+            if k == z3.Z3_OP_MUL:
+                for c in ch:
+                    if not z3.is_rational_value(c):
+                        pos(c, guard)
+                    elif num(c) <= 0:
+                        return logf[0](t)
+                r = lg(ch[0], guard)
+                for c in ch[1:]:
+                    r = r + lg(c, guard)
+                return r
+            if k == z3.Z3_OP_DIV:
+                for c in ch:
+                    if not z3.is_rational_value(c):
+                        pos(c, guard)
+                    elif num(c) <= 0:
+                        return logf[0](t)
+                return lg(ch[0], guard) - lg(ch[1], guard)
+            if k == z3.Z3_OP_POWER and z3.is_rational_value(ch[1]):
+                pos(ch[0], guard)
+                return ch[1] * lg(ch[0], guard)
+        return logf[0](t)
+
+    def walk(e):
+        key = e.get_id()
+        if key in cache:
+            return cache[key]
+        if z3.is_app(e) and e.num_args() > 0:
+            ch = [walk(c) for c in e.children()]
+            d = e.decl()
+            if d.kind() == z3.Z3_OP_UNINTERPRETED and d.name() == log_name and d.arity() == 1:
+                logf[0] = d
+                r = lg(ch[0])
+            else:
+                r = d(*ch) if not all(a.eq(b) for a, b in zip(ch, e.children())) else e
+        else:
+            r = e
+        cache[key] = r
+        return r
+    out = [walk(e) for e in exprs]
+    return out, side
 
 
 def size_of(e, seen=None):
